@@ -357,7 +357,9 @@ type Run struct {
 
 func withGlobals(c Cfg, now int64, f func()) {
 	oldNow, oldDelay, oldSkew, oldLocal := saml.TimeNow, saml.MaxIssueDelay, saml.MaxClockSkew, time.Local
-	defer func() { saml.TimeNow, saml.MaxIssueDelay, saml.MaxClockSkew, time.Local = oldNow, oldDelay, oldSkew, oldLocal }()
+	defer func() {
+		saml.TimeNow, saml.MaxIssueDelay, saml.MaxClockSkew, time.Local = oldNow, oldDelay, oldSkew, oldLocal
+	}()
 	time.Local = time.FixedZone("harness-local", 5*3600+1800) // nothing may depend on the process's zone
 	saml.TimeNow = func() time.Time { return time.Unix(0, now).UTC() }
 	saml.MaxIssueDelay, saml.MaxClockSkew = time.Duration(c.MaxIssueDelay), time.Duration(c.MaxClockSkew)
